@@ -439,6 +439,7 @@ be_filter_read_nolock_(struct bufferevent *underlying, void *me_)
 	struct bufferevent *bufev = downcast(bevf);
 	struct bufferevent_private *bufev_private = BEV_UPCAST(bufev);
 	int processed_any = 0;
+	int again;
 
 	// It's possible our refcount is 0 at this point if another thread free'd our filterevent
 	EVUTIL_ASSERT(bufev_private->refcnt >= 0);
@@ -451,17 +452,22 @@ be_filter_read_nolock_(struct bufferevent *underlying, void *me_)
 		else
 			state = BEV_NORMAL;
 
-		/* XXXX use return value */
-		res = be_filter_process_input(bevf, state, &processed_any);
-		(void)res;
+		do {
+			again = 0;
+			processed_any = 0;
+			/* XXXX use return value */
+			res = be_filter_process_input(bevf, state, &processed_any);
 
-		/* XXX This should be in process_input, not here.  There are
-		 * other places that can call process-input, and they should
-		 * force readcb calls as needed. */
-		if (processed_any) {
+			/* XXX This should be in process_input, not here.  There are
+			 * other places that can call process-input, and they should
+			 * force readcb calls as needed. */
+			if (!processed_any)
+				break;
 			bufferevent_trigger_nolock_(bufev, EV_READ, 0);
-			if (evbuffer_get_length(underlying->input) > 0 &&
-				be_readbuf_full(bevf, state)) {
+			if (bufev_private->refcnt <= 0 ||
+			    evbuffer_get_length(underlying->input) == 0)
+				break;
+			if (be_readbuf_full(bevf, state)) {
 				/* data left in underlying buffer and filter input buffer
 				 * hit its read high watermark.
 				 * Schedule callback to avoid data gets stuck in underlying
@@ -469,8 +475,14 @@ be_filter_read_nolock_(struct bufferevent *underlying, void *me_)
 				 */
 				evbuffer_cb_set_flags(bufev->input, bevf->inbuf_cb,
 					EVBUFFER_CB_ENABLED);
+			} else if (res == BEV_OK && (bufev->enabled & EV_READ)) {
+				/* We stopped at the high watermark and a non-deferred
+				 * read callback has drained the input already: nothing
+				 * else would restart the processing of what is left in
+				 * the underlying input, so continue here. */
+				again = 1;
 			}
-		}
+		} while (again);
 	}
 }
 
